@@ -865,3 +865,24 @@ Lemma st_never_raises : forall l, Forall decorable l ->
   run repaired [] l = ([], map (fun fc => result_of (fst fc) (snd fc)) l)
   /\ Forall (fun r => is_ok r = true) (snd (run repaired [] l)).
 Proof. intros l H. split; [exact (run_results l H)|exact (proj2 (proj2 (never_raises l H)))]. Qed.
+
+(* ---------------------------------------------------------------------------------- *)
+(* chains: what a subclass of the new class sees                                       *)
+(* ---------------------------------------------------------------------------------- *)
+Lemma st_chain : forall fl (st st' : stack) b nb d,
+  c19_guard b = true -> c_dc b = Some d -> wrap repaired fl st b = (st', Ok nb) ->
+  (forall x, mem x (inherited_slots (full_mro nb))
+             = mem x (filter (not_inherited b) (fnames d) ++ extras_for fl b) || mem x (inherited_slots (c_mro b)))
+  /\ (forall f, In f (fnames d) -> mem f (inherited_slots (full_mro nb)) = true).
+Proof.
+  intros fl st st' b nb d Hg Hdc W. pose proof (c19_guard_names b Hg) as Hng.
+  pose proof (wrap_result fl st st' b nb d Hng Hdc W) as Hn.
+  assert (H1 : forall x, mem x (inherited_slots (full_mro nb))
+             = mem x (filter (not_inherited b) (fnames d) ++ extras_for fl b) || mem x (inherited_slots (c_mro b))).
+  { intros x. rewrite inherited_as_union. unfold full_mro. cbn [existsb own_sum s_slots].
+    rewrite Hn at 1. rewrite (result_own_slots fl b d Hdc Hng), (slots_exact fl b d Hdc Hg).
+    rewrite <- inherited_as_union. rewrite Hn. reflexivity. }
+  split; [exact H1|].
+  intros f Hf. rewrite H1, mem_app, mem_filter. apply mem_In in Hf. rewrite Hf. cbn [andb].
+  unfold not_inherited. destruct (mem f (inherited_slots (c_mro b))); [apply orb_true_r|reflexivity].
+Qed.
